@@ -81,7 +81,19 @@ pub fn run(ctx: &Ctx) -> Vec<Report> {
             }
         };
         let (u, rr) = (sno % 2 == 1, sno % 4 >= 2);
-        let with_filter = Opts { u, r: rr, filter: Some(filter.clone()), count: sno % 5 == 0, ..Default::default() };
+        // other options must not open the filter: -M (log raw lines of some formats) and -c are varied with it
+        let log_messages = if sno % 4 == 1 || sno % 7 == 0 {
+            let one = *r.pick(&FORMATS);
+            let mut m: Vec<u32> = FORMATS.iter().copied().filter(|_| r.chance(1, 2)).collect();
+            m.push(one);
+            Some(m)
+        } else {
+            None
+        };
+        if log_messages.is_some() {
+            rep.count("runs_with_log_messages_option", 1);
+        }
+        let with_filter = Opts { u, r: rr, filter: Some(filter.clone()), count: sno % 5 == 0, log_messages, ..Default::default() };
         let without = Opts { u, r: rr, filter: None, ..Default::default() };
         let all: Vec<&Vec<u8>> = stream.iter().map(|x| &x.0).collect();
         let restricted: Vec<&Vec<u8>> = stream.iter().filter(|x| x.1.is_some_and(|d| filter.contains(&d))).map(|x| &x.0).collect();
